@@ -19,6 +19,9 @@ store/smt.go, and `storeProofTree` on the two prefixes `facts` reads off store/s
 
 ## Live obligations — about the code that exists
 
+* `source_validates_total_bits`, `source_checks_value_length`  generated facts: `validNodeKey` bounds the total key bits by
+                                   the tree's key length, and `VerifyProof` validates value lengths (the verifier that
+                                   exists is `verifyFixed true`)
 * `source_is_repaired`, `store_reads_written_prefix`  generated facts: store/smt.go has the key-validating algorithm, and
                                    `NewReadOnly` opens the prefix `Root()` writes. **Reverting either fix breaks these.**
 * `fixed_sound`          for every key length, tree, key, value and EVERY proof (honest, for another key, truncated,
@@ -27,7 +30,10 @@ store/smt.go, and `storeProofTree` on the two prefixes `facts` reads off store/s
 * `fixed_complete`       the proof `GetMerkleProof` produces verifies for the true statement about its key
 * `store_complete`       …also at store level: the tree `NewReadOnly(v)` serves proofs from is the committed one
 * `fixed_never_crashes`  no crash and no hang outcome
-* `fixed_rejects_witnesses`  the four corpus scenarios below are rejected
+* `fixed_rejects_witnesses`, `strict_rejects_resplit`  the corpus scenarios below are rejected
+* the hypothesis `H4Inj` of `fixed_sound` is load-bearing and stays explicit: `resplit_forgery_accepted`,
+  `not_sound_with_unframed_hash` (pre-value-check model, real unframed node hash, [`C16:forged-proof-accepted-as-nonmembership`]),
+  `resplit_one_node_impossible`, `fixed_lengths_do_not_make_concatenation_injective`
 
 ## Part A — theorems about the PRE-FIX model (permanent corpus; each replayed on the real code by
 `harness/c16/witness.go`, which must now stay silent; oracle signatures in brackets)
